@@ -211,7 +211,9 @@ def _check_entry_points(run: Run, ctx, m) -> None:
 
 def _check_gate(run: Run, ctx, m) -> None:
     ca = m.find_func("check_ast", in_module="func_adl.util_ast")
-    checkers = [c for c in m.classes.values() if c.parent_func is ca and m.is_visitor(c)]
+    from ..lib import used_visitor
+
+    checkers = [used_visitor(m, TermCtx(m, max_depth=1), ca)]
     if len(checkers) != 1:
         raise AnalysisError("check_ast no longer contains one visitor class")
     ck = checkers[0]
